@@ -8,7 +8,7 @@ import random
 
 import numpy as np
 
-from vlib import paths
+from vlib import paths, argrep
 paths.setup()
 from vlib.runner import result, HELD, VIOL, SKIP, INCO  # noqa: E402
 from vlib import refmath as rm  # noqa: E402
@@ -141,8 +141,18 @@ def _case_1d(case, spl):
             ref2 = rm.spline_eval_scipy(T, c, p, xs, der)
             got_arr = s.eval(xs.copy(), der)
             keep = (got_arr, got_arr.copy())
-            got_vec = np.full(len(xs), np.nan)
-            s.eval_vector(xs.copy(), got_vec, der)
+            # the caller's points / result arrays: fresh, a stride / column / window of a larger block, or ONE array for both (in place)
+            rk = (case.get("seed", 0) + 2 * der + len(ev)) % 5
+            x_in = argrep.view_of(xs, argrep.kinds(1)[(rk + 1) % 4])
+            if rk == 4:
+                got_vec = x_in = argrep.view_of(xs, "c")
+            else:
+                got_vec = argrep.view_of(np.full(len(xs), np.nan), argrep.kinds(1)[rk])
+            s.eval_vector(x_in, got_vec, der)
+            ev["eval_vector_argument_layouts"] = ev.get("eval_vector_argument_layouts", 0) + 1
+            if rk != 4 and not np.array_equal(np.array(x_in), xs):
+                return result(VIOL, cls=sorted(cls), events=ev, key="C07:eval_vector-modified-its-points", what="%s: Spline1D.eval_vector changed the evaluation points it was handed" % name, witness={"case": case})
+            got_vec = np.array(got_vec)
             got_sc = np.array([s.eval(float(x), der) for x in xs])
             other = s.eval(xs.copy(), 1 - der)
             # a returned array must stay what it was: later evaluations of the same object must not write into it
@@ -263,8 +273,9 @@ def _case_2d(case, spl):
             tol = C * rm.EPS * rel * cmax * ((2 * p1 * p1 / h1) if d1 else 1) * ((2 * p2 * p2 / h2) if d2 else 1)
             got_grid = s.eval(x1.copy(), x2.copy(), d1, d2)
             retained.append((got_grid, got_grid.copy(), (d1, d2)))
-            got_vec = np.full((len(x1), len(x2)), np.nan)
-            s.eval_vector(x1.copy(), x2.copy(), got_vec, d1, d2)
+            held = argrep.view_of(np.full((len(x1), len(x2)), np.nan), argrep.kinds(2)[(case.get("seed", 0) + 2 * d1 + d2) % 5])   # the caller's result array in several memory layouts
+            s.eval_vector(argrep.view_of(x1, argrep.kinds(1)[(case.get("seed", 0) + d1) % 4]), argrep.view_of(x2, argrep.kinds(1)[(case.get("seed", 0) // 4 + d2) % 4]), held, d1, d2)
+            got_vec = np.array(held)
             got_sc = np.array([[s.eval(float(a), float(b), d1, d2) for b in x2] for a in x1])
             # module-level pointwise vector entry
             X, Y = np.meshgrid(x1, x2, indexing="ij")
